@@ -33,15 +33,18 @@ theorem gen_sizes_and_moduli :
     2 ^ 253 ≤ r ∧ r < 2 ^ 254 ∧ (254 + 7) / 8 = 32 ∧ p < 2 ^ 256 := by decide
 
 /-- the coordinates are written and read in the order the model uses (x before y; for Fp2 the
-`.x` = imaginary part first), each read coordinate is checked to be canonical, G1/G2 test curve
+`.x` = imaginary part first; for G1/G2 as (field of the point)@(byte offset) pairs extracted structurally
+from `MarshalBinary`/`UnmarshalBinary`, independent of the names of local variables), each read coordinate is checked to be canonical, G1/G2 test curve
 membership, G2's `IsOnCurve` multiplies by `Order`, the length checks are strict `<`,
 `gfP.Unmarshal` overwrites its destination, `Equal` compares encodings, and G2's `UnmarshalFrom`
 reads the tag byte separately -/
 theorem gen_code_shape :
-    Gen.Codec.pointG1_marshalOrder = ["pgtemp.x", "pgtemp.y"] ∧
+    Gen.Codec.pointG1_marshalLayout = ["x@0", "y@32"] ∧
+    Gen.Codec.pointG1_unmarshalLayout = ["x@0", "y@32"] ∧
     Gen.Codec.pointG1_unmarshalOrder = ["p.g.x", "p.g.y"] ∧
     Gen.Codec.pointG1_montEncodeOrder = ["p.g.x", "p.g.y"] ∧
-    Gen.Codec.pointG2_marshalOrder = ["pgtemp.x.x", "pgtemp.x.y", "pgtemp.y.x", "pgtemp.y.y"] ∧
+    Gen.Codec.pointG2_marshalLayout = ["x.x@1", "x.y@33", "y.x@65", "y.y@97"] ∧
+    Gen.Codec.pointG2_unmarshalLayout = Gen.Codec.pointG2_marshalLayout ∧
     Gen.Codec.pointG2_unmarshalOrder = ["p.g.x.x", "p.g.x.y", "p.g.y.x", "p.g.y.y"] ∧
     Gen.Codec.pointG2_montEncodeOrder = Gen.Codec.pointG2_unmarshalOrder ∧
     Gen.Codec.pointGT_marshalOrder = ["p.g.x.x.x", "p.g.x.x.y", "p.g.x.y.x", "p.g.x.y.y", "p.g.x.z.x",
